@@ -1222,7 +1222,7 @@ func c12Tasks(tier string) []mc.Task {
 		}
 	}
 	ts = append(ts, c12CLITasks(thorough)...)
-	return ts
+	return append(ts, c12LargeTasks()...)
 }
 
 func init() {
@@ -1251,6 +1251,11 @@ func init() {
 		Tasks: func(tier string) []mc.Task { return append(c12Tasks(tier), cliStreamTasks("C12")...) },
 		Replay: func(c *mc.Ctx, payload json.RawMessage) {
 			if cliStreamReplay(c, payload) {
+				return
+			}
+			var lc c12LargeCase
+			if json.Unmarshal(payload, &lc) == nil && lc.Large {
+				c12LargeCheck(c, &lc)
 				return
 			}
 			var cs c12Case
